@@ -466,7 +466,7 @@ impl Worksheet {
             return Err(format!("Can not set a negative width: {width}"));
         }
         let cols = &mut self.cols;
-        let mut col = Col {
+        let col = Col {
             min: column,
             max: column,
             width: width / constants::COLUMN_WIDTH_FACTOR,
@@ -515,7 +515,6 @@ impl Worksheet {
                 style: cols[index].style,
                 hidden: cols[index].hidden,
             };
-            col.style = cols[index].style;
             cols.remove(index);
             if column != max {
                 cols.insert(index, post);
